@@ -144,6 +144,8 @@ type Machine struct {
 	sumCachePath map[sumKey]*sumEntry
 	pureCache map[*ssa.Function]int
 	intrCache map[*ssa.Function]intrEntry
+	paramsSeen map[string]int
+	extraInit  map[string]bool
 	cfCache   map[string]Result
 	sumCtx    *localCtx
 
@@ -167,6 +169,8 @@ func NewMachine(prog *ssa.Program, solverKind string, opts Options) (*Machine, e
 		sumCachePath: map[sumKey]*sumEntry{},
 		pureCache:  map[*ssa.Function]int{},
 		intrCache:  map[*ssa.Function]intrEntry{},
+		paramsSeen: map[string]int{},
+		extraInit:  map[string]bool{},
 		cfCache:    map[string]Result{},
 	}
 	m.stats.pathsByEnd = map[string]int{}
